@@ -97,6 +97,12 @@ class FibModel:
                 self.has_cb = z3.Store(self.has_cb, k, z3.BoolVal(False))      # a fresh PrefixTreeNode has no callback
                 return NodeRef(self, key.kid)
             return _M(f)
+        if name == 'has_subtrie':
+            # ASSUMED pygtrie: true iff some key that strictly extends `key` is stored; longer keys are not modelled
+            # here, so the answer is an unconstrained boolean
+            return _M(lambda it_, key: it_.run.fresh_bool('has_longer_prefix'))
+        if name == 'has_key':
+            return _M(lambda it_, key: z3.Select(self.dom, zint(key.kid)))
         raise Unsupported(f'NameTrie.{name}')
 
     def getitem(self, it, key, node):
